@@ -36,6 +36,7 @@ package hessian
 import (
 	"encoding/binary"
 	"io"
+	"math"
 	"reflect"
 	"time"
 	"unsafe"
@@ -57,8 +58,11 @@ func encodeDate(date time.Time) []byte {
 	if date.IsZero() {
 		return []byte{_nilTag}
 	}
-	if date.UnixNano()%int64(time.Second) > 0 {
-		value := date.UnixNano() / int64(time.Millisecond)
+	sec := date.Unix()
+	if date.Nanosecond() != 0 || sec < math.MinInt32 || sec > math.MaxInt32 {
+		// milliseconds since the epoch, rounded down; computed from seconds so that
+		// it does not overflow outside the years UnixNano can represent
+		value := sec*1000 + int64(date.Nanosecond()/int(time.Millisecond))
 
 		// 8 octet longs
 		return []byte{
@@ -73,7 +77,7 @@ func encodeDate(date time.Time) []byte {
 			byte(value)}
 	}
 
-	value := date.Unix()
+	value := sec
 	return []byte{
 		_dateSecondStartTag,
 		byte(value >> 24),
@@ -102,7 +106,7 @@ func decodeDateValue(reader ByteRuneReader, flag int32) (time.Time, error) {
 		by := []byte{bf[0], bf[1], bf[2], bf[3], bf[4], bf[5], bf[6], bf[7]}
 		u64 := binary.BigEndian.Uint64(by)
 		i64 := *(*int64)(unsafe.Pointer(&u64))
-		return time.Unix(0, i64*int64(time.Millisecond)), nil
+		return time.UnixMilli(i64), nil
 	case _dateSecondStartTag:
 		buf, err := readBytes(reader, 4)
 		if err != nil {
